@@ -33,14 +33,23 @@ class C12:
 
     def generate(self, rnd, index, tier):
         sc = pipeline.gen_scenario(rnd, PROFILE)
+        # suffixes that themselves contain dots ('cost_volume_confidence.a.b')
+        if rnd.random() < 0.25:
+            used = {n for n, _ in sc["program"]}
+            for st in sc["program"]:
+                if programs.kind_of(st[0]) == "cost_volume_confidence" and rnd.random() < 0.5:
+                    new = st[0] + (".x" if "." in st[0] else ".m.x")
+                    if new not in used:
+                        used.add(new)
+                        st[0] = new
         # give interval_bounds steps a regularisation (needs an earlier ambiguity band) now and then
         prog = sc["program"]
         amb_sfx = None
         for n, p in prog:
             if programs.kind_of(n) != "cost_volume_confidence":
                 continue
-            if p["confidence_method"] == "ambiguity" and n.count(".") <= 1:
-                amb_sfx = n.split(".")[1] if "." in n else ""
+            if p["confidence_method"] == "ambiguity":
+                amb_sfx = n.split(".", 1)[1] if "." in n else ""
             if p["confidence_method"] == "interval_bounds" and amb_sfx is not None and rnd.random() < 0.6:
                 p.update({"regularization": True, "ambiguity_indicator": amb_sfx,
                           "ambiguity_threshold": rnd.choice([0.0, 0.3, 0.6, 1.0]),
@@ -142,7 +151,7 @@ class C12:
                 "off; the normalised value is compared with the reading the code uses",
                 "winner bracketing asserted only when no aggregation step lies between the interval_bounds step and "
                 "the disparity step, and not under regularisation with quantile < 1",
-                "single-dot suffixes only (what a multi-dot name contributes as suffix is not defined by the statement)",
+                "the suffix of a band is everything after the step kind in the step name (also for 'kind.a.b')",
             ],
         }
 
